@@ -91,10 +91,10 @@ where
             let direct = lib!(tag.evaluate(x));
             let stateful = lib!(ev.evaluate(x));
             if x.is_nan() {
-                // no model value for NaN, but the routes must agree with each other
-                if !same_bits(direct, stateful) {
-                    fail!("{tyname}::arbitrary value with ends {:?}: for a NaN argument direct evaluation uses segment {} but the stateful evaluator segment {} (phase {phase})", ends, direct, stateful);
-                }
+                // NaN: panic-freedom only. Which segment answers a NaN argument is not pinned by any listed
+                // property (C02 and C03 exclude NaN, C16 asks for no panic and for harmlessness), so the routes
+                // are not required to agree on it (a bisecting `evaluate` may legitimately pick another segment).
+                let _ = phase;
                 continue;
             }
             let m = select(&ends, x) as f64;
@@ -117,15 +117,6 @@ where
         ctx.comparisons += 1;
         if !same_bits(batch[i], m) {
             fail!("{tyname}::arbitrary value with ends {:?}: evaluate_v at x={} uses segment {} but the selection model says {}", ends, hex(x), batch[i], m);
-        }
-    }
-    // NaN through evaluate_v: same segment as direct evaluation
-    {
-        let nan = f64::NAN;
-        let d0 = lib!(tag.evaluate(nan));
-        let b0: Vec<f64> = lib!(tag.evaluate_v(vec![nan]).collect());
-        if b0.len() != 1 || !same_bits(b0[0], d0) {
-            fail!("{tyname}::arbitrary value with ends {:?}: for a NaN argument direct evaluation uses segment {} but evaluate_v {:?}", ends, d0, b0);
         }
     }
     // NaN through evaluate_v and the original (arbitrary, possibly NaN-coefficient) function: panic-freedom only
@@ -154,7 +145,7 @@ impl Prop for C19 {
         "C19"
     }
     fn rule(&self) -> String {
-        "case = (T in {Poly0, Poly3, Poly8, PolyN, Piecewise<Poly1> (a piece type whose own Arbitrary can fail)}; byte string). Byte strings are (a) CONSTRUCTED with the wire layout Vec<f64>::arbitrary reads (continuation byte, 8 little-endian bytes per element) so that they decode to chosen end lists — normal random ends in any order incl. descending, many duplicates, empty list, lists containing NaN / ±inf / subnormal / ±0 ends — followed by random piece bytes, and truncated at a random position (so the input runs out while ends or pieces are read), or (b) uniformly random bytes of length 0..200. Oracle: the call never panics; Err is always acceptable; Ok(pw) must have >=1 segment, every end is_normal(), ends non-decreasing; then a tag copy (same ends, Poly0(i)) is evaluated over its whole alphabet incl. 5 NaN payloads directly, through one PiecewiseEvaluator (alphabet ascending, then descending, then interleaved extremes) and through evaluate_v (ascending): no panic, for non-NaN arguments the same segment index from all three and from the selection model, and for NaN arguments the same segment from all three routes; the original value is evaluated the same three ways for panic-freedom. Non-trivial: Ok with >=2 segments.".into()
+        "case = (T in {Poly0, Poly3, Poly8, PolyN, Piecewise<Poly1> (a piece type whose own Arbitrary can fail)}; byte string). Byte strings are (a) CONSTRUCTED with the wire layout Vec<f64>::arbitrary reads (continuation byte, 8 little-endian bytes per element) so that they decode to chosen end lists — normal random ends in any order incl. descending, many duplicates, empty list, lists containing NaN / ±inf / subnormal / ±0 ends — followed by random piece bytes, and truncated at a random position (so the input runs out while ends or pieces are read), or (b) uniformly random bytes of length 0..200. Oracle: the call never panics; Err is always acceptable; Ok(pw) must have >=1 segment, every end is_normal(), ends non-decreasing; then a tag copy (same ends, Poly0(i)) is evaluated over its whole alphabet incl. 5 NaN payloads directly, through one PiecewiseEvaluator (alphabet ascending, then descending, then interleaved extremes) and through evaluate_v (ascending): no panic, and for non-NaN arguments the same segment index from all three and from the selection model (for NaN arguments only panic-freedom: which segment answers NaN is not pinned by any listed property); the original value is evaluated the same three ways for panic-freedom. Non-trivial: Ok with >=2 segments.".into()
     }
     fn cases(&self, tier: Tier) -> u64 {
         tier.pick(1_000_000, 10_000_000)
